@@ -65,6 +65,22 @@ PROPERTIES = {
         'assumptions': ['"mutating either afterwards never changes the other" follows from the per-call separation clauses (no shared '
                         'dict, change point or marker list; setting objects are immutable)'],
     },
+    'C03': {
+        'groups': ['Q1', 'Q2', 'Q3', 'R4', 'P3', 'K1'],
+        'level': 'other',
+        'explanation': 'The real to_str and the real set_ansi_str are executed symbolically one after the other on bounded-symbolic '
+                       'tables.  Q1: AnsiString(str(s)) has the text of s and every character (Skolemised position) has the '
+                       'effective style - settings reduced by the independent terminal oracle - it has in s.  Q2: simplify() keeps '
+                       'text and effective style (of the valid settings), afterwards every setting in the table is valid and '
+                       'parsable and is_formatting_parsable() is True; invalid settings (zz, 1m, 31;A, @) and settings holding two '
+                       'parameter groups are included.  Q3: str(s) after simplify();simplify() equals str(s) after one simplify(), '
+                       'and str(AnsiString(str(s))) == str(s) for a simplified s.  R4 and P3 are the separate contracts of the '
+                       'renderer and the parser the round trip is composed of.',
+        'trusted_base': ['terminal oracle (term_apply / eff_state in contracts/spec.py)', 'tokenizer summary B1 (discharged by group B1)'],
+        'assumptions': ['base text without ESC', 'the effective style of a character with invalid settings is that of its valid '
+                        'settings (an invalid setting ends the escape sequence: no style is defined for it)',
+                        'quick tier: tables of at most 2 change points for Q2/Q3 plus one chained 3-point shape; thorough: 3 points'],
+    },
     'C10': {
         'groups': ['X1', 'X2c', 'X3', 'X4p', 'X4r', 'X5', 'X6', 'X6u', 'X7', 'X8', 'W2', 'Z2'],
         'level': 'other',
